@@ -1,10 +1,10 @@
 SPECIFICATION Spec
 CONSTANTS
-  Lo <- LoDef
-  Hi <- HiDef
-  Stride = 72
+  Lo <- LoWide
+  Hi <- HiWide
+  Stride = 320
   MaxRules = 0
   Wide = FALSE
-  Late = 1
+  Late = 0
 INVARIANTS YearSound MonthSound MonthYearSound WeekSound HolidaySound
 CHECK_DEADLOCK FALSE
